@@ -18,15 +18,22 @@ from pysym.wire import to_wire, from_wire
 FNAME = 'repodata.json'
 
 
-def build(eng, ns, A=2, B=1, wrong_kinds=True):
+def build(eng, ns, A=2, B=1, wrong_kinds=True, meta_kinds=True):
     t = T(eng, ns=ns)
     arts = []
+
+    def metadata(nm):
+        d = {'build_number': t.int(nm + '.i'), 'depends': ['python']}      # JSON object; differs between artifacts iff the ints differ
+        if not meta_kinds or (meta_kinds == 'conda' and not nm.startswith('packages.conda')):
+            return d
+        # "any JSON metadata per artifact": also bare booleans, numbers, strings, null, arrays
+        return t.any(nm, [('object', d), ('bool', t.bool(nm + '.b')), ('int', t.int(nm + '.n')), ('str', t.str(nm + '.s', 2)), ('null', None), ('array', [t.int(nm + '.a')])])
 
     def section(name, n):
         slots = []
         for i in range(n):
             nm = t.str(f'{name}.n{i}', 3)
-            md = {'build_number': t.int(f'{name}.m{i}'), 'depends': ['python']}      # JSON object; differs between artifacts iff the ints differ
+            md = metadata(f'{name}.m{i}')
             slots.append((nm, md))
             arts.append(dict(section=name, name=nm, meta=md, idx=i))
         return t.sdict(name, slots)
@@ -35,7 +42,8 @@ def build(eng, ns, A=2, B=1, wrong_kinds=True):
     for a in arts:
         sd = pk if a['section'] == 'packages' else pc
         a['present_in_section'] = zb(sd.slots[a['idx']][0])
-    stale = t.sdict('stale', [(t.str('stale.n', 3), {'zz': {'signature': 'ab' * 64}})])
+    stale_key, stale_sig = t.str('stale.k', 66), t.str('stale.s', 130)
+    stale = t.sdict('stale', [(t.str('stale.n', 3), t.sdict('stale.e', [(stale_key, {'signature': stale_sig})], optional=False))])
     pkv = t.any('packagesv', [('dict', pk), ('list', []), ('none', None)]) if wrong_kinds else pk
     pcv = t.any('packages.condav', [('dict', pc), ('list', []), ('none', None)]) if wrong_kinds else pc
     doc = t.sdict('doc', [('packages', pkv), ('packages.conda', pcv), ('signatures', stale), ('info', t.payload('info', dict))])
@@ -49,10 +57,14 @@ def build(eng, ns, A=2, B=1, wrong_kinds=True):
         eng.domain(('distinct', ns), z3.And(cons))
     key = t.str('keyhex', 66)
     content = t.any('content', [('json', 'JSON'), ('notjson', Opaque(bytes, 'notjson', None)), ('missing', None)])
-    return dict(doc=doc, pk=pk, pc=pc, pkv=pkv, pcv=pcv, arts=arts, key=key, content=content, t=t)
+    return dict(doc=doc, pk=pk, pc=pc, pkv=pkv, pcv=pcv, arts=arts, key=key, content=content, t=t, stale_key=stale_key)
 
 
 def setup_fs(it, tp):
+    # the signer's public key hex (so that a stale entry may be filed under exactly that key)
+    from pysym.models import hex_view
+    sk0 = KeyObj(raw=mk_hex_bytes(it, tp['key']), private=True)
+    tp['pubhex0'] = hex_view(it, public_of(it, sk0).raw)
     fs = FS()
     it.eng.path_local['fs'] = fs
     doc_bytes = canon_of(it, tp['doc'])
@@ -101,10 +113,22 @@ def concrete_repodata(case):
         return None
     if case['content'] == 'notjson':
         return b'\x00not json{'
-    return C.canonserialize(from_wire(case['doc']))
+    doc = from_wire(case['doc'])
+    if case.get('stale_is_signer') and isinstance(doc.get('signatures'), dict):
+        # the model filed the stale entry under the signer's own public key: use the real one
+        import re
+        from cryptography.hazmat.primitives.asymmetric import ed25519
+        from cryptography.hazmat.primitives import serialization as Z
+        if re.fullmatch('[0-9a-f]{64}', case['key'] or ''):
+            pub = ed25519.Ed25519PrivateKey.from_private_bytes(bytes.fromhex(case['key'])).public_key().public_bytes(Z.Encoding.Raw, Z.PublicFormat.Raw).hex()
+            for name, ent in doc['signatures'].items():
+                if isinstance(ent, dict) and case['stale_key'] in ent:
+                    ent[pub] = ent.pop(case['stale_key'])
+    return C.canonserialize(doc)
 
 
 def mk_case(eng, tp, m, fault=None):
     tag = m.eval(tp['content'].tag, model_completion=True).as_long()
+    stale_is_signer = bool(z3.is_true(m.eval(tp['stale_key'].eq_sym(tp['pubhex0']), model_completion=True))) if 'pubhex0' in tp else False
     return dict(scenario='sign_repodata', content=['json', 'notjson', 'missing'][tag], doc=to_wire(conc(m, tp['doc'])), key=conc(m, tp['key']),
-                fault=fault)
+                stale_key=conc(m, tp['stale_key']), stale_is_signer=stale_is_signer, fault=fault)
